@@ -20,6 +20,7 @@ PROPOSED_KNOWN = [
      "what": "Markdown macro / .md partial shown in HTML, writer failing on a write of the Markdown converter: run.go OpReturn raises the converter's error as fatalError, Run panics into the host with `fatal error: E` instead of returning E"},
 ]
 
+SELFTEST_ID = 900000
 ALL_MODES = ["fail", "short", "sticky", "fail+sw", "short+sw", "sticky+sw"]
 
 
@@ -77,9 +78,27 @@ def run(ctx, only=None):
     obs = ctx.work / "obs.ndjson"
     ctx.drive("c13", cases, obs, args=["-extra", str(extra)], timeout=1200)
     recs = rig.read_ndjson(obs)
-    bads, stats = judge(ctx, "trace", obs)
     runs = {run["t"]: (r, run) for r in recs for run in r["runs"]}
     failing = [x for x in runs.values() if any(w[2] == 0 for w in x[1]["w"])]
+    # sensitivity self-test of the judge, in the same TLC run: one more record holding an uncorrupted log and five corrupted ones
+    st = selftest(failing)
+    if st:
+        body = obs.read_text()          # (first in the file: the judge lists at most 400 bad templates)
+        obs.write_text(json.dumps(st, separators=(",", ":")) + "\n" + body)
+    elif only is None:
+        raise Infra("no failing run to build the sensitivity self-test from")
+    bads, stats = judge(ctx, "trace", obs)
+    if st:
+        b3 = [b for b in bads if b["tid"] == SELFTEST_ID]
+        bads = [b for b in bads if b["tid"] != SELFTEST_ID]
+        rej = {b["id"] for b in b3}
+        ncor = len(st["runs"]) - 1
+        ctx.cov["sensitivity_selftest"] = {"corrupted": ncor, "rejected": len(rej - {SELFTEST_ID}), "uncorrupted_accepted": SELFTEST_ID not in rej,
+                                           "clauses": sorted({b["sig"]["clause"] for b in b3})}
+        if len(rej - {SELFTEST_ID}) < ncor or SELFTEST_ID in rej:
+            raise Infra(f"sensitivity self-test: {ncor} corrupted logs, {len(rej - {SELFTEST_ID})} rejected; uncorrupted log rejected: {SELFTEST_ID in rej}")
+        stats["runs"] -= len(st["runs"])
+        stats["failing"] -= len(st["runs"])
     drift = {"runs_with_model": stats["modelled"], "outside_fatal_variant": stats["driftF"], "outside_outerror_variant": stats["driftO"]}
     variant = [v for v, d in (("fatalError (code as found)", stats["driftF"]), ("outError (proposed fix)", stats["driftO"])) if d == 0]
     ctx.cov.update(
@@ -119,20 +138,6 @@ def run(ctx, only=None):
             b["what"] = compact(*runs[b["id"]])
             b["case"] = {"id": b["tid"], "name": b["name"], "k": b["fk"], "mode": b["mode"]}
     ctx.cov["judged_bad_first_pass"] = len(bads)
-    # 5. sensitivity self-test of the judge: corrupted logs must be rejected
-    st = selftest(failing)
-    if st:
-        p = ctx.work / "selftest_obs.ndjson"
-        rig.write_ndjson(p, [st])
-        b3, _ = judge(ctx, "trace_selftest", p)
-        rej = {b["id"] for b in b3}
-        ncor = len(st["runs"]) - 1
-        ctx.cov["sensitivity_selftest"] = {"corrupted": ncor, "rejected": len(rej - {900000}), "uncorrupted_accepted": 900000 not in rej,
-                                           "clauses": sorted({b["sig"]["clause"] for b in b3})}
-        if len(rej - {900000}) < ncor or 900000 in rej:
-            raise Infra(f"sensitivity self-test: {ncor} corrupted logs, {len(rej - {900000})} rejected; uncorrupted log rejected: {900000 in rej}")
-    elif only is None:
-        raise Infra("no failing run to build the sensitivity self-test from")
 
     def rw(rdir, b):
         (rdir / "case.json").write_text(json.dumps(b.get("case")))
@@ -185,7 +190,7 @@ def selftest(failing):
     c = clone(900003); c["kind"] = "hostpanic"                # Run panicked into the host
     d = clone(900004); d["w"].append([3, 3, 1, 0, 0])         # one more write after the failure
     e = clone(900005); e["acc"][0] ^= 1                       # accepted bytes are not the render's
-    return dict(r, id=900000, runs=[clone(900000), a, b, c, d, e])       # (the first one, uncorrupted, must be accepted)
+    return dict(r, id=SELFTEST_ID, modelled=False, outsF=[], outsO=[], runs=[clone(SELFTEST_ID), a, b, c, d, e])       # (the first one, uncorrupted, must be accepted)
 
 
 def replay(ctx, path):
